@@ -77,6 +77,7 @@ fn main() {
         "example-run" => runloop::run_example_run(&args),
         "run-program" => runloop::run_run_program(&args),
         "sock-replay" => runloop::run_sock_replay(&args),
+        "tcp-lines" => runloop::run_tcp_lines(&args),
         "tcp-frame" => runloop::run_tcp_frame(&args),
         "irq-replay" => stepped::run_irq_replay(&args),
         "acc-cases" => stepped::run_acc_cases(&args),
